@@ -1968,6 +1968,22 @@ def unit_variance(inj, scratch):
                                                               'a numeral cell denotes the same number under parse::<usize>() and parse::<f64>()'])
 
 
+def unit_linecount(inj, scratch):
+    """util::get_line_count: whole function verbatim on a scripted file (open failure, read failure at any chunk)."""
+    frag_begin(inj)
+    s = src('src/util/mod.rs', scratch)
+    it = s.fn('get_line_count')
+    whole = s.text[it['sig_start']:it['end']]
+    sig = re.sub(r'\s+', ' ', s.text[it['sig_start']:it['open']]).strip()
+    if sig != 'pub fn get_line_count(entry: &DirEntry) -> Option<usize>':
+        raise AnchorLost(f'get_line_count: signature changed shape: {sig!r}')
+    text = 'pub mod linecount {\n' + H('frag_linecount_prelude.rs') + '\n// ---- verbatim ----\n' + whole + '\n' + H('frag_linecount.kani.rs') + '\n}\n'
+    inj.new_file(FRAG_FILE, text)
+    r, d = frag_record('linecount::get_line_count', 'src/util/mod.rs', 'fn get_line_count (whole function, verbatim, on a scripted file)', whole, whole,
+                       ['DirEntry / File / BufReader / bytecount::count -> scripted stand-ins with the same method names'], 'the operating system: open, read')
+    return dict(functions=[r], dropped=[d], assumptions=['the scripted reader stands for std::io::BufReader<File>: fill_buf yields the unread rest of the current chunk, an empty slice only at the end of the file, or an error; consume(n) advances by n'])
+
+
 def unit_wbuf(inj, scratch):
     rel = 'src/util/wbuf.rs'
     s = src(rel, scratch)
